@@ -31,7 +31,6 @@ type spec struct {
 	grid     func() []*V
 	custom   func(thorough bool) []valCase
 	maxNodes func(thorough bool) int
-
 }
 
 func intIn(lo, hi *big.Int) func(*V) bool {
@@ -153,7 +152,7 @@ func specs() []*spec {
 			encs: jsonEncs, expect: ident, trailing: true,
 			// a number's prefix can be a number
 			truncOK: func(v *V, e enc) bool { return !isT(v, "int", "flt") },
-			grid: gridArrMap(true, true, ident, 0), maxNodes: std,
+			grid:    gridArrMap(true, true, ident, 0), maxNodes: std,
 		},
 		{
 			name: "jsonl", fq: "jsonl", arrays: true, maps: true,
